@@ -15,6 +15,8 @@
 //!              "tee":"file"|"full"|"fifo"  duplicate_output on a healthy file / on /dev/full / on a fifo whose reader has gone}
 //!             ms = -1: no timeout (only generated when something is outstanding)
 //!             {"stress":{"threads":t,"wakes":w}}
+//!             {"reopen":[v0,v1,..]}   the same tty opened and released once per entry, settings changed from outside before each
+//!             "stty": v on a scripted session: the tty is found with line settings variant v (bits: ECHOK, ECHOCTL, IMAXBEL, VEOF)
 //!             {"blocked_wake":true}   wake pending, output stalled, infinite poll (returns at once since the third fix)
 #[path = "ptyutil.rs"]
 mod ptyutil;
@@ -105,10 +107,35 @@ struct Session {
     before: Option<libc::termios>,
 }
 
-fn open_session() -> Result<Session, String> {
+/// Line settings changed "from outside" (what stty would do), through the master side: variant v toggles a
+/// combination of flags that do not touch the data path of a raw-mode session.  Every session may start from
+/// different settings; pts numbers are recycled within the process, so the same device is opened again and again.
+fn stty_variant(fd: i32, v: u64) {
+    if v == 0 {
+        return;
+    }
+    if let Some(mut t) = tcgetattr(fd) {
+        if v & 1 != 0 {
+            t.c_lflag ^= libc::ECHOK;
+        }
+        if v & 2 != 0 {
+            t.c_lflag ^= libc::ECHOCTL;
+        }
+        if v & 4 != 0 {
+            t.c_iflag ^= libc::IMAXBEL;
+        }
+        if v & 8 != 0 {
+            t.c_cc[libc::VEOF] = 4 + (v % 3) as u8;
+        }
+        unsafe { libc::tcsetattr(fd, libc::TCSANOW, &t) };
+    }
+}
+
+fn open_session(stty: u64) -> Result<Session, String> {
     let (master, path) = open_pty()?;
     let master_fd = master.as_raw_fd();
     set_winsize(master_fd, 30, 100);
+    stty_variant(master_fd, stty);
     let before = tcgetattr(master_fd);
     std::env::set_var("TERM", "dumb");
     std::env::remove_var("COLORTERM");
@@ -149,7 +176,7 @@ pub fn run_script(input: &Value) -> Case {
     let mut obs_json: Vec<Value> = vec![];
     let mut tags: Vec<String> = vec!["script".into()];
     let mut j = input.clone();
-    let mut sess = match open_session() {
+    let mut sess = match open_session(input["stty"].as_u64().unwrap_or(0)) {
         Ok(s) => s,
         Err(e) => {
             j["impl"] = json!({ "error": e });
@@ -476,7 +503,7 @@ fn run_stress(input: &Value) -> Case {
     let threads = input["stress"]["threads"].as_u64().unwrap_or(4) as usize;
     let wakes = input["stress"]["wakes"].as_u64().unwrap_or(100) as usize;
     let mut j = input.clone();
-    let mut sess = match open_session() {
+    let mut sess = match open_session(0) {
         Ok(s) => s,
         Err(e) => {
             j["impl"] = json!({ "error": e });
@@ -575,6 +602,59 @@ fn run_open_fails(input: &Value) -> Case {
     };
     j["impl"] = json!({"open_failed": failed, "settings_unchanged": restored});
     Case { coq: format!("CO {} {}", cbool(failed), cbool(restored)), json: j, tags: vec!["open_fails".into()], nontrivial: true }
+}
+
+/// The same tty opened and released several times in this process, its line settings changed from outside in
+/// between (`"reopen": [v0, v1, ..]`, one stty variant per open; `"nested"`: the next object is opened while the
+/// previous one is still alive and both are released in order of creation): every release must leave the settings
+/// found at THAT open (for a nested pair: the outer object's).
+fn run_reopen(input: &Value) -> Case {
+    let _g = SERIAL.lock().unwrap_or_else(|e| e.into_inner());
+    let mut j = input.clone();
+    let (master, path) = match open_pty() {
+        Ok(x) => x,
+        Err(e) => {
+            j["impl"] = json!({ "error": e });
+            return Case { coq: "CRO 0 false".into(), json: j, tags: vec!["infra-error".into()], nontrivial: false };
+        }
+    };
+    let master_fd = master.as_raw_fd();
+    set_winsize(master_fd, 30, 100);
+    std::env::set_var("TERM", "dumb");
+    std::env::remove_var("COLORTERM");
+    let peer = Peer::spawn(master, vec![Rate { size: 65536, sleep_us: 0 }], true);
+    let variants: Vec<u64> = input["reopen"].as_array().map(|a| a.iter().map(|v| v.as_u64().unwrap_or(0)).collect()).unwrap_or_default();
+    let mut all = true;
+    let mut opens = 0u64;
+    let mut log = vec![];
+    for v in &variants {
+        stty_variant(master_fd, *v);
+        let before = tcgetattr(master_fd);
+        match SystemTerminal::open(&path) {
+            Ok(mut term) => {
+                opens += 1;
+                let _ = term.write_all(b"hello");
+                let _ = term.poll(Some(Duration::from_millis(1)));
+                drop(term);
+            }
+            Err(e) => {
+                all = false;
+                log.push(json!({"variant": v, "error": format!("{:?}", e)}));
+                continue;
+            }
+        }
+        let after = tcgetattr(master_fd);
+        let same = match (&before, &after) {
+            (Some(b), Some(a)) => termios_key(b) == termios_key(a),
+            _ => false,
+        };
+        all &= same;
+        log.push(json!({"variant": v, "settings_after_release_equal_those_found_at_open": same,
+                        "lflag_found": before.map(|t| t.c_lflag as u64), "lflag_left": after.map(|t| t.c_lflag as u64)}));
+    }
+    let _ = peer.finish();
+    j["impl"] = json!({"opens": opens, "each_release_restored": all, "log": log});
+    Case { coq: format!("CRO {} {}", opens, cbool(all)), json: j, tags: vec!["reopen".into()], nontrivial: true }
 }
 
 /// The escape-sequence resize mode: the ioctl reports no pixel size, the terminal answers the size queries, so the
@@ -838,6 +918,9 @@ pub fn run(input: &Value) -> Case {
     if input["open_fails"].as_bool().unwrap_or(false) {
         return run_open_fails(input);
     }
+    if input["reopen"].is_array() {
+        return run_reopen(input);
+    }
     if !input["stress"].is_null() {
         run_stress(input)
     } else if input["blocked_wake"].as_bool().unwrap_or(false) {
@@ -962,9 +1045,14 @@ fn gen_script(rng: &mut Rng) -> Value {
             }
         }
     }
+    // half of the sessions find the tty with other line settings than the default ones
+    let stty = if rng.chance(1, 2) { 1 + rng.below(15) } else { 0 };
     let with_tee = |mut v: Value| {
         if let Some(kind) = tee {
             v["tee"] = json!(kind);
+        }
+        if stty != 0 {
+            v["stty"] = json!(stty);
         }
         v
     };
@@ -994,6 +1082,9 @@ pub fn generate(rng: &mut Rng, n: usize, _tier: &str) -> Vec<Value> {
     v.push(json!({"blocked_wake": true}));
     v.push(json!({"escsize": true, "winches": 2}));
     v.push(json!({"escsize": true, "backlog": true, "winches": 1}));
+    // the same tty opened again in this process after its settings were changed from outside
+    v.push(json!({"reopen": [0, 1, 0, 6]}));
+    v.push(json!({"reopen": [3, 3, 12, 5, 0]}));
     for k in 1..=3 {
         v.push(json!({"escsize": true, "inflight": k, "winches": 1}));
         v.push(json!({"escsize": true, "inflight": k, "busy": true, "winches": 1}));
